@@ -3,7 +3,48 @@ package main
 import (
 	"strconv"
 	"strings"
+	"unicode"
 )
+
+// every Unicode general category: inputs must cover all characters, not just the ones
+// the language gives a meaning to
+var uniTables = []*unicode.RangeTable{unicode.Nd, unicode.Nl, unicode.No, unicode.Lu, unicode.Ll, unicode.Lt, unicode.Lm, unicode.Lo,
+	unicode.Mn, unicode.Mc, unicode.Me, unicode.Pc, unicode.Pd, unicode.Ps, unicode.Pe, unicode.Pi, unicode.Pf, unicode.Po,
+	unicode.Sm, unicode.Sc, unicode.Sk, unicode.So, unicode.Zs, unicode.Zl, unicode.Zp, unicode.Cc, unicode.Cf, unicode.Co,
+	unicode.Nd, unicode.Nl, unicode.No, unicode.No, unicode.Sm, unicode.Zs}
+
+var specialRunes = []rune{0x00A0, 0x00AD, 0x00B2, 0x00B9, 0x00BC, 0x00BD, 0x2070, 0x2074, 0x2080, 0x2089, 0x2160, 0x2460, 0x0663, 0xFF15, 0x200B, 0x200D, 0x2028, 0x2029,
+	0xFEFF, 0xFFFD, 0xFFFE, 0x10FFFF, 0x1F600, 0x1D7D8, 0x00D7, 0x00F7, 0x2022, 0x2013, 0x02C6, 0x03C0, 0x00E4, 0x0301, 0x2212, 0x2044, 0x221E, 0x00B5, 0x2260, 0x2264}
+
+func randRune(r *rng) rune {
+	if r.chance(0.25) {
+		return pick(r, specialRunes...)
+	}
+	t := pick(r, uniTables...)
+	n16, n32 := len(t.R16), len(t.R32)
+	k := r.intn(n16 + n32)
+	if k < n16 {
+		rg := t.R16[k]
+		cnt := int(rg.Hi-rg.Lo)/int(rg.Stride) + 1
+		return rune(rg.Lo) + rune(r.intn(cnt))*rune(rg.Stride)
+	}
+	rg := t.R32[k-n16]
+	cnt := int(rg.Hi-rg.Lo)/int(rg.Stride) + 1
+	return rune(rg.Lo) + rune(r.intn(cnt))*rune(rg.Stride)
+}
+
+var badUTF8 = []string{"\xc0\x80", "\xe0\x80\x80", "\xed\xa0\x80", "\xed\xbf\xbf", "\xf4\x90\x80\x80", "\xf8\x88\x80\x80\x80", "\xc2", "\xe2\x82", "\xf0\x9f\x98", "\x80", "\xbf", "\xfe", "\xff"}
+
+func randToken(r *rng) string {
+	switch c := r.intn(10); {
+	case c < 6:
+		return pick(r, soupTokens...)
+	case c < 9:
+		return string(randRune(r))
+	default:
+		return pick(r, badUTF8...)
+	}
+}
 
 // ---------- PRNG (the only source of randomness in generators) ----------
 
@@ -199,8 +240,8 @@ func genParseText(r *rng, kind string, maxLen int) ([]byte, string) {
 					j = len(s)
 				}
 				s = append(s[:i:i], s[j:]...)
-			case 1: // insert a token
-				t := pick(r, soupTokens...)
+			case 1: // insert a token or an arbitrary character
+				t := randToken(r)
 				s = append(s[:i:i], append([]byte(t), s[i:]...)...)
 			case 2: // duplicate a span
 				j := i + r.rangeInt(1, 6)
@@ -218,15 +259,36 @@ func genParseText(r *rng, kind string, maxLen int) ([]byte, string) {
 			}
 		}
 		return s, "mutated"
-	case c < 14:
+	case c < 13:
 		var b strings.Builder
 		for k := r.rangeInt(1, 40); k > 0; k-- {
-			b.WriteString(pick(r, soupTokens...))
+			b.WriteString(randToken(r))
 			if r.chance(0.3) {
 				b.WriteString(" ")
 			}
 		}
 		return []byte(b.String()), "soup"
+	case c < 15:
+		// arbitrary characters at token boundaries of a valid program
+		base := valid()
+		var b strings.Builder
+		placed := 0
+		for i := 0; i < len(base); i++ {
+			ch := base[i]
+			boundary := i == 0 || strings.ContainsRune(" \t\n()[]{},;:.+-*/%^=<>!&|~", rune(base[i-1])) || strings.ContainsRune(" \t\n()[]{},;:.+-*/%^=<>!&|~", rune(ch))
+			if boundary && ch < 0x80 && placed < 3 && r.chance(0.15) {
+				b.WriteString(string(randRune(r)))
+				placed++
+			}
+			b.WriteByte(ch)
+		}
+		if placed == 0 || r.chance(0.3) {
+			if r.chance(0.5) {
+				return []byte(string(randRune(r)) + b.String()), "unicode"
+			}
+			b.WriteString(pick(r, "", " ", "+") + string(randRune(r)))
+		}
+		return []byte(b.String()), "unicode"
 	case c < 17:
 		base := valid()
 		tail := pick(r, `"abc`, `"abc\`, "'abc", "/* abc", "/*", "/", "//", "// x", "/**", "/* *", "1+/*", "1 //", "\"\\", "a.", "a.b(", "[1,2", "{a:1", "{a:", "(((((", "1+", "-", "!", "->", "x->", "func f(", "let x=", "let", "if a then", "try 1 catch", "switch a case 1:", "\x00abc", "a\x00+", "\xff\xfe", "\xe2\x82", "1e", "1e+", "1..2", "²", "a²³", "a b c", "2a(b)c")
